@@ -17,16 +17,21 @@ def showDec : DecRes → String
 /-- what Decode / ToPEM must return for a `std` corpus file, from the oracle fields of the op line
     (computed by mkpfx.go from the original PEM files with the standard library only) -/
 def expectOpened (o : Op) : String :=
+  let fn := o.str "fname"
+  let csp := if o.str "csp" == "-" || o.str "csp" == "" then "" else s!":csp={o.str "csp"}"
   match o.str "shape" with
   | "std" =>
-    let fn := o.str "fname"
-    s!"decode=ok key={o.str "key"} cert={o.str "cert"} pem=CERTIFICATE:{o.str "cert"}:{fn}:{o.str "lkid"};PRIVATE-KEY:{o.str "key"}:{fn}:{o.str "lkid"}"
-  | "chain" => "decode=err pem=blocks:3"
-  | _ => "bad-op"
+    s!"decode=ok key={o.str "key"} cert={o.str "cert"} pem=CERTIFICATE:{o.str "cert"}:{fn}:{o.str "lkid"};PRIVATE-KEY:{o.str "key"}:{fn}:{o.str "lkid"}{csp}"
+  | "ed" => s!"decode=ok key={o.str "key"} cert={o.str "cert"} pem=err"   -- Ed25519: Decode returns it, ToPEM has no form for it
+  | _ => "no-oracle"
 
 def handle (line : String) : String :=
   let o := parseOp line
   match o.cmd with
+  | "nierr" =>
+    match o.hex? "s" with
+    | some m => toHex ("pkcs12: ".toUTF8.toList ++ m)      -- (NotImplementedError).Error()
+    | none => "bad-op"
   | "bmp" =>
     match runes? o "pw" with
     | some rs => match bmpString rs with | some b => s!"ok {toHex b}" | none => "err"
@@ -68,9 +73,9 @@ def handle (line : String) : String :=
     -- mkpfx.go from the original PEM files must agree with what it recovers (three-way agreement)
     match o.hex? "file", runes? o "try" with
     | some file, some rs =>
-      if o.str "shape" == "nomac" then "decode=err pem=err" else   -- "no MAC in data"
       let out := openFile file rs (o.str "shape" == "chain")
-      if out.startsWith "decode=ok" && (o.str "shape" != "std" || out != expectOpened o) then s!"oracle-mismatch {out}"
+      let sh := o.str "shape"
+      if out.startsWith "decode=ok" && ((sh != "std" && sh != "ed") || out != expectOpened o) then s!"oracle-mismatch {out}"
       else out
     | _, _ => "bad-op"
   | "mut" =>
